@@ -200,7 +200,9 @@ def r3_paused_state(ctx, cfg='A'):
                   'a dispatch_event call that dispatches nothing changes neither the clock nor the dispatch counter (a paused runtime reports the last dispatched event)',
                   f.where_path(path), {'clock_written': clock, 'counter_written': counter})
         ctx.check(it.stops is True, 'stop-signalled', 'a dispatch step that dispatches nothing ends the dispatch loop', f.where_path(path), {'form': form})
-    ctx.floor('non-dispatching paths of dispatch_event', n, 2)
+    # (the limit path, plus the empty-set path when the step itself tests for emptiness rather than the loop that drives it)
+    own_empty = any(s.name.endswith('::is_empty') or s.name.endswith('::len') for s in f.calls())
+    ctx.floor('non-dispatching paths of dispatch_event', n, 2 if own_empty else 1)
 
 
 def r4_stop_decision(ctx, cfg='A'):
